@@ -14,8 +14,15 @@ const NAMES: [&str; 3] = ["a", "b", "c"];
 /// `010` and `10` collide by value, `8` would collide with `010` read as octal
 const CODES: [Option<&str>; 4] = [None, Some("8"), Some("010"), Some("10")];
 
-/// alphabet: 12 methods + 1 constant
+/// alphabet: 12 methods + 1 constant + 1 constant named like a method
 fn member(sym: usize, idx: usize) -> Member {
+    if sym == 13 {
+        return Member::Const(Const::new(
+            Ty::prim("int"),
+            "a",
+            Value::Scalar(Scalar::Integer("8".into())),
+        ));
+    }
     if sym == 12 {
         return Member::Const(Const::new(
             Ty::prim("int"),
@@ -48,6 +55,8 @@ fn make_case(seq: &[usize]) -> Case {
             seq.iter()
                 .map(|s| if *s == 12 {
                     "const".to_string()
+                } else if *s == 13 {
+                    "const a".to_string()
                 } else {
                     format!("{}{}", NAMES[s / 4], CODES[s % 4].map(|c| format!("={c}")).unwrap_or_default())
                 })
@@ -84,13 +93,13 @@ pub fn check_case(case: &Case) -> CheckResult {
 pub fn run(tier: Tier, seed: u64) -> i32 {
     let stats = Stats::new(PROP, tier, seed);
     let l = tier.pick(4, 5);
-    let n = seq_total(13, l);
+    let n = seq_total(14, l);
     super::drive(
         &stats,
         n,
         1,
         |i| {
-            let seq = seq_at(i, 13, l);
+            let seq = seq_at(i, 14, l);
             stats.nontrivial(fnv(&format!("{seq:?}")));
             let c = make_case(&seq);
             if i % 2999 == 0 {
@@ -100,12 +109,12 @@ pub fn run(tier: Tier, seed: u64) -> i32 {
         },
         check_case,
     );
-    stats.space(json!({"space": "member sequences", "alphabet": "3 names x {no code, 8, 010, 10} + 1 constant", "max_length": l, "sequences": n}));
+    stats.space(json!({"space": "member sequences", "alphabet": "3 names x {no code, 8, 010, 10} + 1 constant + 1 constant named like a method", "max_length": l, "sequences": n}));
     let classes = ["duplicate-method-name", "duplicate-transact-code", "mixed-transact-codes"];
     let all = classes.iter().all(|c| stats.outcome_count(&format!("class:{c}")) > 0) && stats.outcome_count("clean") > 0;
     finish(
         &stats,
-        "every member sequence up to the stated length over 12 methods (3 names x {no code, 8, 010, 10}) and a constant; all validation diagnostics inside the interface body (Errors with their related ranges) are compared with a reference single pass transcribed from the statement; distinct_nontrivial counts distinct sequences",
+        "every member sequence up to the stated length over 12 methods (3 names x {no code, 8, 010, 10}), a constant and a constant named like a method; all validation diagnostics inside the interface body (Errors with their related ranges) are compared with a reference single pass transcribed from the statement; distinct_nontrivial counts distinct sequences",
         &[
             "name-repeat and code-repeat Errors are located exactly (name / code range, related = first holder); the 'mixed' Error anywhere inside the designated method",
             "the 'mixed' rule is read as the sentence scopes it: among methods with distinct names (first occurrences)",
